@@ -179,3 +179,6 @@ def run(S):
     # the recorded pair must carry the version that was validated *before* the content was read (shared with C05)
     from checks.C05 import rule_rec
     rule_rec(S)
+    from checks import C04
+    S.rule('R-RBK', 'roll-back closures restore each container to the size recorded for that container (shared with C04)')
+    C04.rule_rbk_sizes(S)
